@@ -383,6 +383,7 @@ package client
 //@   ensures [cleared] old(s.started) && clearFutures ==> !s.futureStore.protected && len(s.futureStore.store) == 0 && forall k packet.ID {old(s.futureStore.store)[k]} :: old(has(s.futureStore.store, k)) ==> old(s.futureStore.store)[k].done
 //@   ensures [kept] !(old(s.started) && clearFutures) ==> s.futureStore.store == old(s.futureStore.store) && (s.futureStore.protected <==> old(s.futureStore.protected))
 //@   ensures [released] held == old(held)
+//@   at call 1 Wait assert [supervisor-ended-under-lock] held[s.mutex] == 2
 //@   modifies s.started, tdying, s.futureStore.protected, s.futureStore.store, any(future.Future.result), any(future.Future.done), fclosed, held
 //
 // The enqueueing API functions: the returned future is either queued with its
